@@ -34,6 +34,60 @@ var c19Facades = map[string]facadeDef{
 	"R":  {"Pp", "resource", "/r/{id}", []string{"G"}},
 	"Rr": {"", "resource", "/res", nil},
 	"Rq": {"Q", "resource", "", []string{"H"}},
+	// family 1: prefixes that end below one of two overlapping parameter siblings
+	"Pa": {"", "prefix", "/p/{a}/x/", nil},
+	"Pb": {"", "prefix", "/p/{b}x/", nil},
+}
+
+// c19Sys is router A together with its facade objects. They are made once, when the router is made, and live as
+// long as it does (the way an application keeps `api := r.Prefix("/api")` around), so a facade also meets
+// whatever happened to the router after it was created.
+type c19Sys struct {
+	a    *Router
+	facs map[string]any
+}
+
+func newC19Sys(cfg RouterCfg) *c19Sys {
+	s := &c19Sys{a: NewRouter(cfg), facs: map[string]any{}}
+	var build func(name string) any
+	build = func(name string) any {
+		if f, ok := s.facs[name]; ok {
+			return f
+		}
+		d := c19Facades[name]
+		var parent any = s.a
+		if d.Parent != "" {
+			parent = build(d.Parent)
+		}
+		var f any
+		switch p := parent.(type) {
+		case *Router:
+			if d.Kind == "prefix" {
+				f = p.Prefix(d.Arg, mws(nil, d.MW)...)
+			} else {
+				f = p.Resource(d.Arg, mws(nil, d.MW)...)
+			}
+		case *mux.Prefix[*hv.H]:
+			if d.Kind == "prefix" {
+				f = p.Prefix(d.Arg, mws(nil, d.MW)...)
+			} else {
+				f = p.Resource(d.Arg, mws(nil, d.MW)...)
+			}
+		default:
+			panic("harness: bad facade " + name)
+		}
+		s.facs[name] = f
+		return f
+	}
+	names := make([]string, 0, len(c19Facades))
+	for n := range c19Facades {
+		names = append(names, n)
+	}
+	sort.Strings(names)
+	for _, n := range names {
+		build(n)
+	}
+	return s
 }
 
 // text and mws of a facade by the documented concatenation rule (own arguments first, then the parent's).
@@ -74,6 +128,34 @@ func (s fstep) String() string {
 	return fmt.Sprintf("%s.%s(%q,mw%v)", f, strings.ToUpper(s.K[:1])+s.K[1:], s.P, s.MW)
 }
 
+// c19OrderAlphabet (family 1): two parameter siblings that both match /p/1/x..., each with a route of its own and
+// routes below it, registered in either order; cleaning below one of them must leave the other - and which of the
+// two answers - exactly as the equivalent Remove calls do.
+func c19OrderAlphabet() []fstep {
+	return []fstep{
+		{F: "Pp", K: "get", P: "/{a}/x"},
+		{F: "Pp", K: "get", P: "/{b}x"},
+		{F: "Pa", K: "get", P: "c"},
+		{F: "Pa", K: "get", P: "d"},
+		{F: "Pb", K: "get", P: "c"},
+		{F: "Pp", K: "get", P: "/{a}/x/{z}"},
+		{F: "Pa", K: "clean"},
+		{F: "Pb", K: "clean"},
+		{F: "Pp", K: "remove", P: "/{a}/x"},
+		{F: "Pp", K: "remove", P: "/{b}x"},
+		{F: "Pa", K: "remove", P: "c"},
+		{F: "Pp", K: "fill"},
+		{F: "Pp", K: "clean"},
+	}
+}
+
+func c19AlphabetOf(family int) []fstep {
+	if family == 1 {
+		return c19OrderAlphabet()
+	}
+	return c19Alphabet()
+}
+
 func c19Alphabet() []fstep {
 	return []fstep{
 		{F: "Pp", K: "get", P: "/y", MW: []string{"M1"}},
@@ -93,6 +175,7 @@ func c19Alphabet() []fstep {
 		{F: "Rr", K: "any"},
 		{F: "Rq", K: "put"},
 		{F: "", K: "get", P: "/p/q", MW: []string{"M1"}},
+		{F: "", K: "use", MW: []string{"U"}}, // Router.Use between the creation of the facades and their next call
 		{F: "Pp", K: "remove", P: "/y"},
 		{F: "Pp", K: "remove", P: "/y", Ms: []string{"GET"}},
 		{F: "Q", K: "remove", P: "/z", Ms: []string{"POST"}},
@@ -120,39 +203,21 @@ func c19Alphabet() []fstep {
 var kindMethods = map[string][]string{"get": {"GET"}, "post": {"POST"}, "delete": {"DELETE"}, "put": {"PUT"}, "patch": {"PATCH"}, "any": nil}
 
 // applyFacade runs the step on router a through the facade objects.
-func applyFacade(a *Router, s fstep) (string, any, bool) {
+func applyFacade(sys *c19Sys, s fstep) (string, any, bool) {
 	var res string
+	a := sys.a
 	pv, bad := Guard(func() {
-		var build func(name string) any
-		build = func(name string) any {
-			d := c19Facades[name]
-			var parent any = a
-			if d.Parent != "" {
-				parent = build(d.Parent)
-			}
-			switch p := parent.(type) {
-			case *Router:
-				if d.Kind == "prefix" {
-					return p.Prefix(d.Arg, spare(nil, d.MW)...)
-				}
-				return p.Resource(d.Arg, spare(nil, d.MW)...)
-			case *mux.Prefix[*hv.H]:
-				if d.Kind == "prefix" {
-					return p.Prefix(d.Arg, spare(nil, d.MW)...)
-				}
-				return p.Resource(d.Arg, spare(nil, d.MW)...)
-			}
-			panic("harness: bad facade " + name)
-		}
 		full, _ := facadeText(s.F)
 		h := hv.Route("h:" + full + s.P + ":" + s.K + strings.Join(s.Ms, "+"))
 		var fac any
 		if s.F != "" {
-			fac = build(s.F) // facades first: the slice below must be the last one made from the arena
+			fac = sys.facs[s.F]
 		}
 		m := spare(nil, s.MW)
 		if s.F == "" {
 			switch s.K {
+			case "use":
+				a.Use(mws(nil, s.MW)...)
 			case "get":
 				a.Get(s.P, h, m...)
 			case "url":
@@ -228,6 +293,8 @@ func applyPlain(b *Router, s fstep) (string, any, bool) {
 		h := hv.Route("h:" + text + s.P + ":" + s.K + strings.Join(s.Ms, "+"))
 		all := mws(nil, append(append([]string{}, s.MW...), fm...))
 		switch s.K {
+		case "use":
+			b.Use(mws(nil, s.MW)...)
 		case "get", "post", "delete", "put", "patch", "any":
 			b.Handle(pattern, h, all, kindMethods[s.K]...)
 		case "fill":
@@ -263,7 +330,8 @@ func applyPlain(b *Router, s fstep) (string, any, bool) {
 
 var c19Probes = func() []hv.Req {
 	var qs []hv.Req
-	paths := []string{"/p/a1", "/p/a2", "/p/c1", "/p/y", "/p/zz", "/py", "/p/7/x", "/p/7", "p/y", "/p/q/z", "/p", "/p/r/5", "/res", "/p/q", "/p/q/", "/nowhere"}
+	paths := []string{"/p/a1", "/p/a2", "/p/c1", "/p/y", "/p/zz", "/py", "/p/7/x", "/p/7", "p/y", "/p/q/z", "/p", "/p/r/5", "/res", "/p/q", "/p/q/", "/nowhere",
+		"/p/1/x", "/p/1/x/c", "/p/1x/c", "/p/1/x/x", "/p/1/x/x/c"}
 	for _, p := range paths {
 		for _, m := range []string{"GET", "POST", "DELETE", "PUT", "PATCH", "OPTIONS", "BOGUS", "HEAD"} {
 			qs = append(qs, hv.Req{Method: m, Path: p})
@@ -280,8 +348,8 @@ func c19Vector(r *Router) []string {
 	return v
 }
 
-func buildC19(cfg RouterCfg, steps []fstep) (a, b *Router, perr string) {
-	a, b = NewRouter(cfg), NewRouter(cfg)
+func buildC19(cfg RouterCfg, steps []fstep) (a *c19Sys, b *Router, perr string) {
+	a, b = newC19Sys(cfg), NewRouter(cfg)
 	for _, s := range steps {
 		_, pa, ba := applyFacade(a, s)
 		_, _, bb := applyPlain(b, s)
@@ -297,9 +365,9 @@ func c19Expand(raw json.RawMessage) (any, error) {
 	if err := json.Unmarshal(raw, &in); err != nil {
 		return nil, err
 	}
-	var cfg histCfg
+	var cfg c19Cfg
 	json.Unmarshal(in.Cfg, &cfg)
-	alpha := c19Alphabet()
+	alpha := c19AlphabetOf(cfg.Family)
 	hist := make([]fstep, len(in.History))
 	for i, k := range in.History {
 		hist[i] = alpha[k]
@@ -327,7 +395,7 @@ func c19Expand(raw json.RawMessage) (any, error) {
 		switch {
 		case ba != bb:
 			rep("C19.same-panics", "facade-differs:panic:"+st.K, st.String(), fmt.Sprintf("facade panicked=%v (%v)", ba, pa), fmt.Sprintf("as the plain Router call: panicked=%v (%v)", bb, pb))
-			c.Key, c.NoExpand = "diverged:"+explore.Key(a, b), true
+			c.Key, c.NoExpand = "diverged:"+explore.Key(a.a, b), true
 			kids = append(kids, c)
 			continue
 		case ba && PanicClass(pa) != PanicClass(pb):
@@ -335,7 +403,7 @@ func c19Expand(raw json.RawMessage) (any, error) {
 		case ra != rb:
 			rep("C19.url", "facade-differs:url", st.String(), ra, "as Router.URL on the concatenated pattern: "+rb)
 		}
-		va, vb := c19Vector(a), c19Vector(b)
+		va, vb := c19Vector(a.a), c19Vector(b)
 		c.Probes = int64(2 * len(va))
 		for i := range va {
 			if va[i] != vb[i] {
@@ -358,7 +426,7 @@ func c19Expand(raw json.RawMessage) (any, error) {
 			}
 		}
 		// Prefix.Clean removes exactly the routes whose pattern starts with the prefix
-		c.Key = explore.Key(a) + "|" + explore.Key(b)
+		c.Key = explore.Key(a.a) + "|" + explore.Key(b)
 		if ba {
 			c.NoExpand = false
 		}
@@ -387,6 +455,11 @@ func sameButHandlerChain(a, b string) bool {
 
 var _ = ref.Lit
 
+type c19Cfg struct {
+	Router RouterCfg `json:"router"`
+	Family int       `json:"family"`
+}
+
 func init() {
 	explore.RegisterJob("c19/expand", c19Expand)
 	explore.Register(&explore.Check{ID: "C19", Run: func(rc *explore.RunCtx) {
@@ -399,9 +472,12 @@ func init() {
 		rc.Assume = append(rc.Assume,
 			"programs: every sequence up to the depth bound over 35 facade calls (Get/Post/Delete/Put/Patch/Any/Handle with per-route middlewares, Remove, Clean, URL strict and not) through 10 facade objects: Prefix(\"\",X), Prefix(/p,D), Prefix(/p/), Prefix(/p/{i) (ends inside a parameter token), Prefix(p), nested Prefix(/q,E,F), nested empty Prefix, Resource(/r/{id},G) under a prefix, Router.Resource(/res), Resource(\"\") under a nested prefix",
 			"each program runs on router A as written and, desugared by a translator that only concatenates patterns and middleware lists (Prefix.Clean = remove every live pattern with that textual prefix), on router B through Router.Handle/Remove/URL; after every step Routes(), 105 dispatch observations (status, full middleware chain, pattern, Allow, params), URL results and panics must be identical",
+			"the facade objects are created once, with the router, and live as long as it does; Router.Use is in the alphabet, so a facade is also called after the router's middleware list changed",
+			"second family (depth+1): two overlapping parameter siblings /p/{a}/x and /p/{b}x with routes of their own and below them, registered in either order, Prefix.Clean below either of them, removals, the index block: which of the two answers /p/1/x... must be what the equivalent Remove calls leave",
 			"dedup on the pair of reflective dumps")
 		for _, cfg := range []RouterCfg{{}, {Trace: true}} {
-			explore.BFS(rc, "c19/expand", histCfg{Router: cfg}, depth, true, "C19 "+cfg.String())
+			explore.BFS(rc, "c19/expand", c19Cfg{Router: cfg}, depth, true, "C19 "+cfg.String())
 		}
+		explore.BFS(rc, "c19/expand", c19Cfg{Router: RouterCfg{}, Family: 1}, depth+1, true, "C19 overlapping parameter siblings")
 	}})
 }
